@@ -80,6 +80,33 @@ def parseClassTable (s : String) : Option ClassTable :=
       | _ => none)
   | _ => none
 
+def parseCaptured : SExpr → Option Captured
+  | .list [.atom "lit", c] => (Const.ofSExpr c).map .lit
+  | .list [.atom "klass", c] => (Const.ofSExpr c).map .klass
+  | .list [.atom "lam", e] => (Expr.ofSExpr e).map .lam
+  | .atom "keep" => some .keep
+  | _ => none
+
+def parseSnapshot (s : String) : Option Snapshot :=
+  match SExpr.parse s with
+  | some (.list xs) => xs.mapM (fun x => match x with
+      | .list [.str n, c] => (parseCaptured c).map (fun c => (n, c))
+      | _ => none)
+  | _ => none
+
+def parseAttrResult : SExpr → Option AttrResult
+  | .list [.atom "const", c] => (Const.ofSExpr c).map .const
+  | .atom "keepNode" => some .keepNode
+  | .list [.atom "expr", e] => (Expr.ofSExpr e).map .expr
+  | _ => none
+
+def parseAttrTable (s : String) : Option AttrTable :=
+  match SExpr.parse s with
+  | some (.list xs) => xs.mapM (fun x => match x with
+      | .list [.str t, .str a, r] => (parseAttrResult r).map (fun r => (t, a, r))
+      | _ => none)
+  | _ => none
+
 def okE (e : Expr) : String := "ok\t" ++ e.render
 def bad : String := "err\tbad-request"
 
@@ -151,6 +178,13 @@ def handle (op : String) (args : List String) : String :=
       | .ok e' => okE e'
       | .error err => "err\t" ++ err.render)
     | _, _ => bad
+  | "capture", [snap, attrs, ctors, e] =>
+    match parseSnapshot snap, parseAttrTable attrs, (SExpr.parse ctors).bind strsOfSExpr, parseExpr e with
+    | some snap, some attrs, some ctors, some e => okE (parseCallable snap attrs ctors e)
+    | _, _, _, _ => bad
+  | "resolveCalled", [e] => match parseExpr e with
+    | some e => okE (resolveCalled [] e)
+    | none => bad
   | "ev", [ds, env, e] => match parseVal ds, parseEnv env, parseExpr e with
     | some ds, some env, some e => resStr (ev (driverWorld ds) (Env.ofList env.reverse) e)
     | _, _, _ => bad
